@@ -1842,6 +1842,28 @@ def _cmp_canon(t):
     return subst(t, fn)
 
 
+def _rename_new(t):
+    """objects constructed during the analysis are numbered in construction order (`new(C, '#5')`); within one compared
+    term they are renumbered by rank per class, so that constructing an unrelated object earlier -- or the same object on two
+    exclusive paths -- does not change the name"""
+    ids = {}
+    for a in all_atoms(t).values():
+        if a.kind == 'new' and len(a.args) == 2 and isinstance(a.args[1], str) and a.args[1].startswith('#'):
+            try:
+                ids.setdefault(a.args[0], set()).add(int(a.args[1][1:]))
+            except ValueError:
+                pass
+    if not ids:
+        return t
+    rank = {(c, f'#{k}'): f'#r{i}' for c, ks in ids.items() for i, k in enumerate(sorted(ks))}
+
+    def fn(a):
+        if a.kind == 'new' and (a.args[0], a.args[1]) in rank:
+            return Term.of(Atom('new', a.args[0], rank[(a.args[0], a.args[1])]))
+        return None
+    return subst(t, fn)
+
+
 def rename_loops(t, kinds='LCT'):
     """Loop / try identifiers are line based (L46, C12:4:0, T128); rename them by rank so that a
     reference transcription with different line numbers compares equal."""
